@@ -37,7 +37,7 @@ fn batch<const CAP: usize>() {
     core::mem::forget(sc);
 }
 
-//@ harness: c03_batch_cap1 props=C03 tier=thorough required=no class=functional covers=1 mem=28 timeout=1500 est=400 args=-Z,restrict-vtable
+//@ harness: c03_batch_cap1 props=C03 tier=thorough required=no class=functional covers=1 mem=28 timeout=900 est=400 args=-Z,restrict-vtable
 //@ bounds: get_array_batch with capacity 1 on a one-packet input (80 bytes, all header bytes but the sizes symbolic, payload skipped): the FULL batch holds the packet unchanged at offset 0; the next call reports the end of input as an error
 #[kani::proof]
 #[kani::unwind(3)]
@@ -48,7 +48,7 @@ fn c03_batch_cap1() {
     batch::<1>();
 }
 
-//@ harness: c03_batch_cap2 props=C03 tier=thorough required=no class=functional covers=1 mem=28 timeout=1500 est=400 args=-Z,restrict-vtable
+//@ harness: c03_batch_cap2 props=C03 tier=thorough required=no class=functional covers=1 mem=28 timeout=900 est=400 args=-Z,restrict-vtable
 //@ bounds: same with capacity 2: a SHORT batch (1 of 2) is returned, not an error; the next call is an error
 #[kani::proof]
 #[kani::unwind(4)]
